@@ -29,7 +29,10 @@ Record itcase := {
   it_table : list (list Z);           (* per size index, per frame: frame id, -1 = rendering fails *)
   it_hashes : list Z;                 (* per size index: hash(rendered_size) *)
   it_ops : list (op nat);
-  it_obs : list (list Z);             (* per op: outcome code, frame id, tell, loop_no (-99 = None) *)
+  it_file : bool;                     (* the source is a file path: the library opens the file itself *)
+  it_obs : list (list Z);             (* per op: outcome code, frame id, tell, loop_no (-99 = None), number of
+                                         images opened by the library for this iterator and not yet handed to
+                                         Image.close() *)
   it_keep : bool                      (* size setting unchanged, caller's image alive, fds balanced,
                                          exhausted PIL source back at frame 0 *)
 }.
@@ -54,10 +57,12 @@ Definition ocode (o : outcome Z) : Z * Z :=
   | OClosed => (8, -1)
   | OSized => (9, -1)
   end%Z.
-Definition row (x : outcome Z * Z * option Z) : list Z :=
-  let '(o, p, l) := x in
+(** [file]: only a file-path source makes the library open (and therefore owe the closing
+    of) an image; a PIL source is handed over as it is and never closed *)
+Definition row (file : bool) (x : outcome Z * Z * option Z * bool) : list Z :=
+  let '(o, p, l, io) := x in
   let (c, f) := ocode o in
-  [c; f; p; match l with Some v => v | None => (-99)%Z end].
+  [c; f; p; match l with Some v => v | None => (-99)%Z end; if file && io then 1 else 0]%Z.
 
 Fixpoint zl_eqb (a b : list Z) : bool :=
   match a, b with
@@ -75,13 +80,13 @@ Fixpoint zll_eqb (a b : list (list Z)) : bool :=
 Definition iter_ok_model (c : itcase) : bool :=
   let ce := cache_enabled (it_repeat c) (it_cached c) (it_n c) in
   Bool.eqb ce (it_cache_on c)
-  && zll_eqb (map row (trace (tab_fmt (it_table c)) (tab_hash (it_hashes c)) (it_n c) ce
+  && zll_eqb (map (row (it_file c)) (trace (tab_fmt (it_table c)) (tab_hash (it_hashes c)) (it_n c) ce
                              (init Z (it_repeat c) (it_pos0 c) 0) (it_ops c)))
              (it_obs c).
 
 Definition iter_ok_spec (c : itcase) : bool :=
   it_keep c
-  && zll_eqb (map row (strace (tab_fmt (it_table c)) (it_n c)
+  && zll_eqb (map (row (it_file c)) (strace (tab_fmt (it_table c)) (it_n c)
                               (sinit (it_repeat c) (it_pos0 c) 0) (it_ops c)))
              (it_obs c).
 
@@ -93,28 +98,32 @@ Definition check_iter (c : itcase) : nat :=
 (** one run of a scenario with a failure injected at the k-th PIL call (k = -1: none) *)
 Record frun := {
   f_k : Z;
-  f_outcome_ok : bool;         (* fault-free: no exception; with a fault: the injected exception (or,
-                                  for an interrupt during an animated draw, none) and nothing else *)
-  f_fd_after : Z;              (* descriptors above the baseline once the call has returned *)
+  f_outcome_ok : bool;         (* fault-free: the expected outcome (no exception, or the documented error of an
+                                  invalid argument); with a fault: the injected exception (or, for an interrupt
+                                  during an animated draw, none) and nothing else *)
+  f_unclosed : Z;              (* images the library opened (Image.open) and had not handed to Image.close()
+                                  when the call returned / raised -- every opened image being kept alive by the
+                                  observer, i.e. without any help from the garbage collector *)
+  f_fd_after : Z;              (* descriptors above the baseline at that moment *)
   f_fd_end : Z;                (* ... after the image itself was closed and deleted *)
   f_size_kept : bool;
   f_tell_kept : bool;
-  f_pil_alive : bool;
-  f_unclosed_strict : Z        (* fault-free run only: library-opened images not explicitly closed; -1 n/a *)
+  f_pil_alive : bool
 }.
 
 Record fcase := {
   fc_expect_tell_kept : bool;  (* the scenario must leave the seek position alone (draw / format) *)
-  fc_expect_strict : bool;     (* the fault-free run must close explicitly every image it opened *)
   fc_runs : list frun
 }.
 
 Definition frun_ok_spec (e : fcase) (r : frun) : bool :=
-  Z.eqb (f_fd_after r) 0 && Z.eqb (f_fd_end r) 0 && f_size_kept r && f_pil_alive r
+  Z.eqb (f_unclosed r) 0 && Z.eqb (f_fd_after r) 0 && Z.eqb (f_fd_end r) 0 && f_size_kept r && f_pil_alive r
   && (negb (fc_expect_tell_kept e) || f_tell_kept r)
   && f_outcome_ok r.
-Definition frun_ok_model (e : fcase) (r : frun) : bool :=
-  negb (fc_expect_strict e) || (f_k r >=? 0)%Z || Z.eqb (f_unclosed_strict r) 0.
+
+(** the skeleton theorems (props/C11.v, PART 2) predict exactly one thing about these runs:
+    nothing opened is left unclosed, whatever the fault position *)
+Definition frun_ok_model (e : fcase) (r : frun) : bool := Z.eqb (f_unclosed r) 0.
 
 Definition check_fault (c : fcase) : nat :=
   (if forallb (frun_ok_model c) (fc_runs c) then 0 else 1)
